@@ -1,6 +1,10 @@
 package ircserver
 
-import "gopkg.in/sorcix/irc.v2"
+import (
+	"strings"
+
+	"gopkg.in/sorcix/irc.v2"
+)
 
 func init() {
 	Commands["USER"] = &ircCommand{
@@ -9,10 +13,20 @@ func init() {
 	}
 }
 
+// maxUsernameLen limits the length of usernames (USERLEN on other IRC
+// servers): the username is part of the prefix of every message a session
+// sends, and a prefix which fills the entire line (510 bytes) leaves no room
+// for the command.
+const maxUsernameLen = 32
+
 func (i *IRCServer) cmdUser(s *Session, reply *Replyctx, msg *irc.Message) {
 	// We keep the username (so that bans are more effective) and realname
 	// (some people actually set it and look at it).
 	s.Username = msg.Params[0]
+	if len(s.Username) > maxUsernameLen {
+		// ToValidUTF8 drops a multi-byte character which was cut in half.
+		s.Username = strings.ToValidUTF8(s.Username[:maxUsernameLen], "")
+	}
 	s.Realname = msg.Trailing()
 	s.updateIrcPrefix()
 	i.maybeLogin(s, reply, msg)
